@@ -449,7 +449,7 @@ pub fn write_evidence(
         "property_id": def.id,
         "tier": tier.name(),
         "seed": seed,
-        "level": "exploration",
+        "level": if def.id == "C18" { "fault_enumeration" } else { "exploration" },
         "coverage": coverage,
         "assumptions": def.assumptions,
         "wall_s": wall,
